@@ -291,6 +291,18 @@ Fixpoint cell_run_ps (c : cellcfg) (trs : list trainer) (st : cellstate) (is : l
   end.
 
 End Forward.
+
+(* ---- hyperparameters re-assigned between steps.  The per-cell state returned by register_cell is a plain Module whose
+   attributes (lr_*, tc_*, batchreduce, kernel kwargs, ...) the forward pass reads LIVE on every call
+   (e.g. delay_adj_two_factor_stdp.py:248-272), so a run is described by the batch reduction and the per-element
+   trainer values in force at each step; the monitors are untouched by such a re-assignment. *)
+Definition tvstep := ((list TT -> TT) * list trainer * stepin)%type.
+Fixpoint cell_run_tv (c : cellcfg) (st : cellstate) (is : list tvstep) : list (cellstate * list parts) :=
+  match is with
+  | [] => []
+  | (red, trs, i) :: tl => let r := cell_step_ps red c trs st i in r :: cell_run_tv c (fst r) tl
+  end.
+
 End Model.
 
 Arguments SigNone {N}.
